@@ -206,6 +206,14 @@ def part_b_cases():
                                 yield [(7, 3, 11, 2, parts)], O(use_current=uc, enforce_rules=er)
 
 
+def part_e_cases():
+    """tabulator / batch numbers whose concatenation without a separator coincides: (1,11) v (11,1), (1,12) v (11,2), (12,3) v (1,23)"""
+    pairs = [(1, 11), (11, 1), (1, 12), (11, 2), (12, 3), (1, 23), (2, 2)]
+    for order in itertools.permutations(range(len(pairs)), 3):
+        spec = [(pairs[i][0], pairs[i][1], 5 + j, 1, [("Original", [("c1", VARIANTS["a"])], "flat")]) for j, i in enumerate(order)]
+        yield spec, O()
+
+
 def part_c_cases():
     for nses in (1, 2):
         for groups in itertools.product((1, 2), repeat=nses):
@@ -258,7 +266,7 @@ def run_shard(sh, rec):
                     for key, what in v:
                         rec.violate(key, what, {"dir": nfiles, "opts": opts})
     else:
-        gen = part_b_cases() if sh[0] == "B" else part_c_cases()
+        gen = part_b_cases() if sh[0] == "B" else (part_e_cases() if sh[0] == "E" else part_c_cases())
         for i, (spec, opts) in enumerate(gen):
             if i % sh[2] != sh[1]:
                 continue
@@ -297,6 +305,7 @@ def explore(tier, seed):
         sh.append(("B", r, 8))
     sh.append(("C", 0, 1))
     sh.append(("D",))
+    sh.append(("E", 0, 1))
     tmpfile()  # create the parent directory before forking; removed below (and at exit)
     try:
         return core.pmap(run_shard, sh, seed, progress="C19")
